@@ -33,8 +33,8 @@ func NewLinearlyInterpolatedMapping(relativeAccuracy float64) (*LinearlyInterpol
 	}
 	gamma := math.Pow((1+relativeAccuracy)/(1-relativeAccuracy), math.Ln2) // > 1
 	indexOffset := 1 / math.Log2(gamma)                                    // for backward compatibility
-	m, _ := NewLinearlyInterpolatedMappingWithGamma(gamma, indexOffset)
-	return m, nil
+	// gamma is rounded to 1 if the relative accuracy is too small (below about 1e-16).
+	return NewLinearlyInterpolatedMappingWithGamma(gamma, indexOffset)
 }
 
 func NewLinearlyInterpolatedMappingWithGamma(gamma, indexOffset float64) (*LinearlyInterpolatedMapping, error) {
